@@ -490,7 +490,8 @@ _PS_RULE = ("pubsub: 1-3 senders (1-4 Sends each) and 1-5 subscriber goroutines 
             "sendMu / sendingMu / pongC.L sections; TryRLock outcomes; the halves of each channel rendezvous are paired under their program-order constraints; the log must be "
             "accepted step by step by the Lean protocol model (exact counter and caster word at every atomic event, who receives / absorbs, the value received is the current "
             "Send's, pongs published = values received, every Wait consumes a published pong, every Send's return value, nothing outstanding and not broken at the end); a call "
-            "that does not return is reported as !stuck")
+            "that does not return is reported as !stuck; the first 8 cases of every run are forced schedules (T4): the sender is held after ping.Send's fast-path load / after the "
+            "load of the CAS loop / after the CAS while a subscriber unsubscribes (the unsubscribe lands between ping.Add and the CAS, makes the CAS fail, empties the caster, or absorbs)")
 _PS_C06_OBS = ("its loop body was handed", "received a value that is not", "Send returned", "the iterator yielded", "acknowledged value differs", "pongs to wait for", "Wait consumed a pong",
                "Send stopped waiting", "Send returned before its pongs", "a value was received by a subscriber that is not between rounds", "fast path")
 _PS_C07_OBS = ("while still holding sendingMu", "unsubscribe by a subscriber that is not between rounds", "TryRLock succeeded while", "panic: bigbuff", "state invariant violation", "the model panics here", "did not return", "broken", "final validation panicked", "left through its deferred unlock", "subscribers left at the end",
@@ -511,7 +512,7 @@ PROPS["C06"] = dict(
               "BB.Props.C06.received_message_is_next_in_order", "BB.Props.C06.subscription_starts_after_current_log",
               "BB.Props.C06.global_order_grows_by_arming", "BB.PubSub.pinv123_reach"],
     corr=[dict(family="pubsub", quick=150, thorough=6000, monitor=ps_monitor, no_shrink=True,
-               nontrivial=has("absorb", "unsub_during_send_phase", "deliver_iter", "unsub_between_ping_add_and_cas", "cas_failed_by_racing_unsubscribe", "send_returned_zero_after_lock"),
+               nontrivial=has("absorb", "unsub_during_send_phase", "deliver_iter", "unsub_between_ping_add_and_cas", "cas_failed_by_racing_unsubscribe", "send_returned_zero_after_lock", "forced_schedule_reached"),
                rule=_PS_RULE + "; non-trivial = an unsubscribe absorbing its copy during the send phase, iterator deliveries, a Send that finds everybody gone after locking")],
     assumptions=["sync.Mutex / RWMutex / Cond / atomics semantics modelled; TryRLock may fail whenever a Send holds or awaits sendingMu (spurious failures only add spinning)",
                  "the embedded caster's own RWMutex is not modelled (only the holder of sendMu ever takes it)",
